@@ -199,6 +199,7 @@ class Ctx:
         return r
 
     def design(self, module, cfg=None, prop=None, expect_violation=None, **kw):
+        kw.setdefault("deadlock_off", False)
         """Leg D: run TLC on a design spec.  A violated invariant of the *design* on the unchanged
         specification is a defect in the design model; it is reported as VIOLATION (the spec is part
         of the claim) unless expect_violation names it (used by self-tests of mutated specs)."""
